@@ -447,6 +447,73 @@ func draw(t *rapid.T) Case {
 			cs.Pol = append(cs.Pol, rapid.SampledFrom(cands).Draw(t, "ustmt"))
 		}
 	}
+	if rapid.IntRange(0, 11).Draw(t, "focusfloateq") == 7 {
+		// == between floats that are the same NUMBER with different bits (0 and -0) or the same bits and no number
+		// (NaN), as scalars and nested under list and map literals, where an implementation may compare encodings
+		zs := []float64{0, math.Copysign(0, -1), math.NaN(), 2.5, math.Inf(1)}
+		fa := val.Float(rapid.SampledFrom(zs).Draw(t, "fe-a"))
+		fb := val.Float(rapid.SampledFrom(zs[:3]).Draw(t, "fe-b"))
+		other := val.Float(2.5)
+		mk := func(f val.V) []val.V {
+			return []val.V{f, val.List(f), val.List(other, f), val.Map(val.E("lat", f), val.E("lon", other)), val.Map(val.E("m", val.Map(val.E("v", f)))), val.List(val.Map(val.E("v", f)))}
+		}
+		da, lb := mk(fa), mk(fb)
+		i := rapid.IntRange(0, len(da)-1).Draw(t, "fe-shape")
+		lit := lb[i]
+		cs.Data = val.Map(val.E("a", da[i]), val.E("l", val.List(da[i], da[i])))
+		eq := pol.Stmt{Op: "==", Sel: sel.Sel{{Kind: "field", Name: "a"}}, Lit: &lit}
+		switch rapid.IntRange(0, 3).Draw(t, "fe-wrap") {
+		case 0:
+			cs.Pol = pol.Policy{eq}
+		case 1:
+			cs.Pol = pol.Policy{{Op: "not", Sub: []pol.Stmt{eq}}}
+		case 2:
+			cs.Pol = pol.Policy{{Op: "all", Sel: sel.Sel{{Kind: "field", Name: "l"}}, Sub: []pol.Stmt{{Op: "==", Sel: sel.Sel{{Kind: "id"}}, Lit: &lit}}}}
+		default:
+			cs.Pol = pol.Policy{{Op: "and", Sub: []pol.Stmt{eq, eq}}}
+		}
+	}
+	if rapid.IntRange(0, 11).Draw(t, "focusunordered") == 5 {
+		// data with a number that has no place among the ordinary ones (NaN, +-Inf, an integer above MaxInt64)
+		// under an ORDERING statement with an ordinary literal, at top level and under every connective:
+		// where the classical answer is "false" (NaN with anything, +Inf below something, 2^64-1 below something)
+		// the statement is false wherever it sits.
+		var x, lit val.V
+		if rapid.Bool().Draw(t, "uo-int") {
+			x = val.Uint(rapid.SampledFrom([]uint64{1 << 63, ^uint64(0)}).Draw(t, "uo-u"))
+			lit = val.Int(int64(rapid.IntRange(-5, 100).Draw(t, "uo-il")))
+		} else {
+			x = val.Float(rapid.SampledFrom([]float64{math.NaN(), math.Inf(1), math.Inf(-1)}).Draw(t, "uo-f"))
+			lit = val.Float(float64(rapid.IntRange(-5, 100).Draw(t, "uo-fl")) + 0.5)
+		}
+		one := val.Int(1)
+		cs.Data = val.Map(val.E("a", x), val.E("b", one), val.E("l", val.List(x)), val.E("m", val.Map(val.E("p", x), val.E("q", x))))
+		op := rapid.SampledFrom([]string{"<", "<=", ">", ">="}).Draw(t, "uo-op")
+		cmpA := pol.Stmt{Op: op, Sel: sel.Sel{{Kind: "field", Name: "a"}}, Lit: &lit}
+		elem := pol.Stmt{Op: op, Sel: sel.Sel{{Kind: "id"}}, Lit: &lit}
+		eqB := pol.Stmt{Op: "==", Sel: sel.Sel{{Kind: "field", Name: "b"}}, Lit: &one}
+		cands := []pol.Stmt{
+			cmpA,
+			{Op: "and", Sub: []pol.Stmt{cmpA}},
+			{Op: "and", Sub: []pol.Stmt{eqB, cmpA}},
+			{Op: "and", Sub: []pol.Stmt{cmpA, eqB}},
+			{Op: "or", Sub: []pol.Stmt{cmpA}},
+			{Op: "or", Sub: []pol.Stmt{cmpA, cmpA}},
+			{Op: "all", Sel: sel.Sel{{Kind: "field", Name: "l"}}, Sub: []pol.Stmt{elem}},
+			{Op: "any", Sel: sel.Sel{{Kind: "field", Name: "l"}}, Sub: []pol.Stmt{elem}},
+			{Op: "all", Sel: sel.Sel{{Kind: "field", Name: "m"}}, Sub: []pol.Stmt{elem}},
+			{Op: "and", Sub: []pol.Stmt{{Op: "all", Sel: sel.Sel{{Kind: "field", Name: "l"}}, Sub: []pol.Stmt{elem}}, eqB}},
+			{Op: "not", Sub: []pol.Stmt{{Op: "not", Sub: []pol.Stmt{cmpA}}}},
+		}
+		n := rapid.IntRange(1, 3).Draw(t, "uo-n")
+		cs.Pol = nil
+		for i := 0; i < n; i++ {
+			cs.Pol = append(cs.Pol, rapid.SampledFrom(cands).Draw(t, "uo-stmt"))
+		}
+		if rapid.Bool().Draw(t, "uo-pad") {
+			cs.Pol = append(pol.Policy{eqB}, cs.Pol...)
+		}
+	}
 	forceCtor := false
 	if rapid.IntRange(0, 11).Draw(t, "focusbigint") == 0 {
 		// ordered comparisons between integers of large magnitude that differ by 1 or 2 (exact int64 arithmetic
